@@ -90,6 +90,10 @@ def mulRatio (site : String) (a n d : Nat) : R Nat :=
   else if a * n / d ≤ U128.max then .ok (a * n / d)
   else .error (.panic (site ++ ":overflow"))
 
+/-- `Uint128::checked_multiply_ratio`: `None` on a zero denominator or a 128-bit overflow -/
+def checkedMulRatio (a n d : Nat) : Option Nat :=
+  if d = 0 then none else if a * n / d ≤ U128.max then some (a * n / d) else none
+
 /-- `Decimal::from_ratio(n, d)`: atomics = `floor(n * 10^18 / d)`; same two panics -/
 def decimalFromRatio (site : String) (n d : Nat) : R Nat :=
   mulRatio site n (10 ^ 18) d
